@@ -276,7 +276,7 @@ void process_component(const XmlElement& xf, const Components& components, const
 	{
 		for(XmlElement::XmlSet::const_iterator itr(citr->second->begin()); itr != citr->second->end(); ++itr)
 			process_elements(itr, components, depth, outf, name,
-				depth == 3 ? comp_required : comp_required && required);
+				comp_required && required); // a component nested in an optional component is optional too, at any depth
 	}
 }
 
